@@ -24,6 +24,8 @@ import EPV.Lemmas.BlakeModuli
 import EPV.Lemmas.BlakeFields
 import EPV.Tactics
 
+import EPV.Lemmas.Bridge.DetonTactics
+
 set_option linter.all false
 
 open EPV EPV.Gen EPV.Spec.Blake EPV.Blake
@@ -90,10 +92,12 @@ theorem modLE_accepts_iff (p : BlakeModLE.P) :
       linarith
     have hc2 : BlakeModLE.c2 p := by
       simp only [epv_cond]
-      rw [hR]; linarith
+      epv_deton_rpow_half_to (4 * G + 3 * L - p.youngs_mod) (rw [← h1]; linear_combination (-8 : ℝ) * hE)
+      linarith
     have hc3 : BlakeModLE.c3 p := by
       simp only [epv_cond]
-      rw [hR]; linarith
+      epv_deton_rpow_half_to (4 * G + 3 * L - p.youngs_mod) (rw [← h1]; linear_combination (-8 : ℝ) * hE)
+      linarith
     simp only [epv_tree, hc0, hc1, hc2, hc3, if_true, if_false, ite_self]
 
 theorem modLNu_given (p : BlakeModLNu.P) (h : BlakeModLNu.outcome p = .ok) :
